@@ -388,6 +388,12 @@ def corpus() -> List[dict]:
     h1([["send", "GARBAGE\r\n\r\n"]], "malformed")
     h1([["send", get + get + get]], "pipeline", cfg={"keep_alive_max_requests": 2})
     h1([], "silent_client")
+    # bursts larger than one read of either worker (MAX_RECV): how a burst is cut into reads decides whether a long head is ever seen
+    # incomplete beyond h11_max_incomplete_size (431) and where the `http.request` messages of a body are cut
+    for kb in (12, 20, 40, 60, 70, 130):
+        h1([["send", "GET / HTTP/1.1\r\nHost: x\r\nCookie: " + "c" * (kb * 1024) + "\r\n\r\n"]], f"head_burst_{kb}k")
+    for kb in (20, 70, 200):
+        h1([["send", f"POST / HTTP/1.1\r\nHost: x\r\nContent-Length: {kb * 1024}\r\n\r\n" + "b" * (kb * 1024)]], f"body_burst_{kb}k", methods=["POST"])
     h1([["send", get]], "app_raises", apps=[[["raise"]]])
     h1([["send", get]], "app_raises_group", apps=[[["raise_group"]]])
     h1([["send", get]], "app_raises_group_after_start", apps=[[ok[1], ["raise_group"]]])
